@@ -142,6 +142,7 @@ class Build:
         self.audit_bad = []
         self.forbidden = []
         self.lean_version = ""
+        self.used_pinned_gen = False
         self.wall = 0.0
 
     @property
@@ -200,8 +201,28 @@ def ensure_build(prop, thorough=False):
         # the driver first: it depends on Model/Spec/Gen only
         r = subprocess.run(["lake", "build", "motodrv"], cwd=LEAN, capture_output=True, text=True, env=env)
         if r.returncode != 0:
-            b.infra_error = "driver build failed:\n" + (r.stdout + r.stderr)[-3000:]
-            b.ok = False
+            # the description regenerated from the source no longer fits the model (a constant disappeared, a table
+            # changed shape, ...): that is a broken proof obligation, not an infrastructure failure.  Fall back to the
+            # description of the pinned tree (lean/GenPinned) so that the search for a failing input can still compare the
+            # model of the unchanged code with the code as it is now.
+            errs = re.findall(r"^error: (\S+\.lean:\d+:\d+: .*)$", r.stdout + r.stderr, flags=re.M)
+            pinned = os.path.join(LEAN, "GenPinned")
+            if not errs or not os.path.isdir(pinned):
+                b.infra_error = "driver build failed:\n" + (r.stdout + r.stderr)[-3000:]
+                b.ok = False
+                return b
+            b.proof_errors = ["model does not build on the description regenerated from the source: " + e[:260] for e in errs[:5]]
+            b.used_pinned_gen = True
+            for f in os.listdir(pinned):
+                if f.endswith(".lean"):
+                    shutil.copyfile(os.path.join(pinned, f), os.path.join(LEAN, "MotoModel", "Gen", f))
+            r = subprocess.run(["lake", "build", "motodrv"], cwd=LEAN, capture_output=True, text=True, env=env)
+            if r.returncode != 0:
+                b.infra_error = "driver build failed even on the pinned description:\n" + (r.stdout + r.stderr)[-3000:]
+                b.ok = False
+                return b
+            b.forbidden = scan_forbidden()
+            b.lean_version = subprocess.run(["lean", "--version"], capture_output=True, text=True).stdout.strip()
             return b
         target = f"MotoModel.Props.{prop}"
         r = subprocess.run(["lake", "build", target, "MotoModel.AuditCmd"], cwd=LEAN, capture_output=True, text=True, env=env)
